@@ -4,6 +4,8 @@
 mod alloc;
 mod bcref;
 mod bcview;
+#[cfg(not(miri))]
+mod c13;
 mod checks;
 mod engine;
 mod gen;
@@ -87,6 +89,13 @@ fn main() {
         "specdump" => checks::specdump(&args),
         "bcdump" => checks::bcdump(&args),
         "c17" => checks::c17(&args),
+        #[cfg(not(miri))]
+        "c13" => c13::c13(&args),
+        #[cfg(not(miri))]
+        "c13replay" => c13::c13_replay(&args),
+        "c12" => checks::c12(&args),
+        "c11" => checks::c11(&args),
+        "c11replay" => checks::c11_replay(&args),
         "c05" => checks::c05(&args),
         "c14" => props::c14(&args),
         "c15" => props::c15(&args),
